@@ -1,6 +1,6 @@
 (* C03 — admin operations have exactly the requested effect, on the target only. *)
 From stdpp Require Import gmap.
-Require Import Model.Base Model.Validate Model.State Model.Staking Model.Slashing Model.Poa proofs.L1Effects.
+Require Import Model.Base Model.Validate Model.State Model.Staking Model.Slashing Model.Poa Model.App proofs.L1Effects proofs.InvHistory proofs.InvElig.
 
 (* the target gets exactly the requested tokens/shares/self-delegation and one index entry at the new power;
    x/staking's last powers (what CometBFT holds) are left for its EndBlocker to update *)
@@ -27,3 +27,17 @@ Theorem C03_frame : forall c val n c' w,
   last_pow (stk c') !! w = last_pow (stk c) !! w /\
   (forall p, In (p, w) (pidx (stk c')) <-> In (p, w) (pidx (stk c))).
 Proof. exact set_poa_power_frame. Qed.
+
+(* ... and the EndBlocker does update them to exactly that: at the end of every block of every history (max_validators
+   not binding) the last validator power of each validator is the power of the tokens its record holds — the amount
+   the admin's most recent accepted SetPower wrote, less any slash — if it is not jailed, and absent otherwise; no
+   validator's power is anything else, whatever was done to the others *)
+Theorem C03_last_power_is_token_power : forall g bs,
+  wf_genesis g ->
+  let w := run_world (init_world g) bs in
+  let s := stk (w_chain w) in
+  w_halted w = None ->
+  n_pos (pidx s) <= sp_max_validators (params s) ->
+  forall id, last_pow s !! id =
+    match vals s !! id with Some v => if eligible v then Some (tokens_to_power (v_tokens v)) else None | None => None end.
+Proof. exact reachable_set. Qed.
